@@ -111,7 +111,12 @@ def variants(tier):
             for absent in itertools.combinations(('setup', 'before-assert', 'assert', 'cleanup'), k):
                 if k == 0:
                     continue
-                vs.append(('full-without-' + '+'.join(absent), {p: ([] if p in absent else FULL[p]) for p in PHASES}, 'std'))
+                v = {p: ([] if p in absent else FULL[p]) for p in PHASES}
+                if 'setup' in absent:
+                    v['act'] = ['% mark act']  # S is defined in [setup]
+                if 'cleanup' in absent:
+                    v['assert'] = list(v['assert']) + ["def string LATER = 'l'"] if 'assert' not in absent else v['assert']
+                vs.append(('full-without-' + '+'.join(absent), v, 'std'))
         vs.append(('small', SMALL, 'cleanup-first'))
     return vs
 
@@ -216,7 +221,8 @@ def run(case) -> Result:
         else:
             if calls or sbs:
                 errs.append('symbol command executed something: calls %s sandboxes %s' % (calls, sbs))
-            if o.rc != 0:
+            has_later = any('def string LATER' in l for ph in PHASES for l in base[ph])
+            if o.rc != 0 and not (o.rc == 128 and cmd != 'symbol' and not has_later and 'Symbol not in test case' in o.err):
                 errs.append('symbol command on a valid case: exit %s, stderr %r' % (o.rc, o.err[:200]))
         if home_changed:
             errs.append('home tree changed')
